@@ -630,7 +630,36 @@ func init() {
 			a, b := mk(r.Range(1100, 3000)), mk(r.Range(1100, 3000))
 			emit(Case{Ver: allVers[i%3], Op: "Par2", Args: append(append(toks{"C10", "Sprint", itoa(len(a))}, a...), b...)})
 		}
-	}, map[string]runner{"Hist": runHist, "Conc": runConc, "ConcRoots": runConcRoots, "Find": runFind, "Par": runPar, "Par2": runPar2})
+		genWidePar2(r, emit)
+		// one Positions value built out of order, used for the first time by several goroutines at once
+		for i := 0; i < 12; i++ {
+			ver := allVers[i%3]
+			var t toks
+			t.s("T")
+			t.ints(randDigits(r, r.Range(1, 40)))
+			t.ints(randDigits(r, r.Range(1, 6)))
+			t.i(1)
+			t.i(-1)
+			t.i(-1)
+			nr := r.Range(3, 9)
+			t.i(nr)
+			at := 0
+			for k := 0; k < nr; k++ {
+				at += r.Range(1, 40)
+				t.i(at)
+				at += r.Range(1, 60)
+				t.i(at)
+			}
+			t.i(r.Pick([]int{10, 50}))
+			t.i(r.Pick([]int{0, 5}))
+			t.bool(true)
+			t.i('.')
+			t.bool(true)
+			t.bool(false)
+			t.i(0)
+			emit(Case{Ver: ver, Op: "SharedPos", Args: t})
+		}
+	}, map[string]runner{"Hist": runHist, "Conc": runConc, "ConcRoots": runConcRoots, "Find": runFind, "Par": runPar, "Par2": runPar2, "SharedPos": runSharedPos})
 	register("C06", func(tier string, r *Rng, emit func(Case)) {
 		n := 600
 		if tier == "thorough" {
@@ -655,4 +684,27 @@ func init() {
 		}
 		genHist("type", n, r, emit)
 	}, ops)
+}
+
+// genWidePar2: long formatted texts of two different Numbers padded to a width, produced at the same time
+func genWidePar2(r *Rng, emit func(Case)) {
+	for i := 0; i < 9; i++ {
+		mk := func() toks {
+			var t toks
+			t.s("T")
+			t.ints(randDigits(r, r.Range(1, 40)))
+			t.ints(randDigits(r, r.Range(1, 6)))
+			t.i(r.Pick([]int{0, 1, 3}))
+			t.i(-1)
+			t.i(-1)
+			t.i(r.Pick([]int{0, 1}))
+			prec := r.Range(300, 500)
+			t.i(prec + r.Range(5, 30))
+			t.i(prec)
+			t.i(int(r.Pick([]int{'f', 'e', 'g'})))
+			return t
+		}
+		a, b := mk(), mk()
+		emit(Case{Ver: allVers[i%3], Op: "Par2", Args: append(append(toks{"C08", "Fmt", itoa(len(a))}, a...), b...)})
+	}
 }
